@@ -97,6 +97,33 @@ def run(ctx):
             cid = len(wcases) + 1
             wcases.append({"id": cid, "input": inp, "opts": o, "calls": calls, "save": os.path.join(files, "%d.lz4" % cid),
                            "noflush": not any(c["op"] == "flush" for c in calls), "hist": hi})
+    # Flush-cut blocks arranged so that the size word of block k equals the number of bytes decoded before it (the value the
+    # legacy "total size" trailer would have): probe the stored size of a second block, then put exactly that many bytes
+    # in front of it.  Also with two blocks in front.
+    second = [[97, 98, 99] + [99] * 12 + [118, 119, 120, 121, 122],
+              [ord(ch) for ch in "the quick brown fox jumps over the lazy dog; the quick brown fox jumps over the lazy dog again."],
+              [7] * 700 + list(range(40)), [1, 2, 3, 4] * 300 + [9, 8, 7, 6, 5]]
+    for lvl in (0, 3):
+        po = {"code": 4, "bcs": False, "ccs": True, "level": lvl, "conc": 1, "legacy": False, "handler": False}
+        probes = [{"id": i + 1, "input": {"family": "bytes", "len": len(x), "seed": 0, "bytes": x}, "opts": po,
+                   "calls": [{"op": "write", "n": len(x)}, {"op": "close"}]} for i, x in enumerate(second)]
+        pr, _ = fl.shard_run(b, "frame-write", probes, d, "cumprobe", nshards=1)
+        for i, x in enumerate(second):
+            blk = pr[i + 1]["frames"][0]["blocks"][0]
+            if blk["raw"] or blk["size"] < 2:
+                continue
+            S = blk["size"]
+            r2 = random.Random(S * 31 + i)
+            for front in ([S], [S // 2, S - S // 2]):
+                data = [r2.randrange(256) for _ in range(S)] + x
+                calls = []
+                for nf in front:
+                    calls += [{"op": "write", "n": nf}, {"op": "flush"}]
+                calls += [{"op": "write", "n": len(x)}, {"op": "close"}]
+                for ccs in (True, False):
+                    cid = len(wcases) + 1
+                    wcases.append({"id": cid, "input": {"family": "bytes", "len": len(data), "seed": 0, "bytes": data},
+                                   "opts": dict(po, ccs=ccs), "calls": calls, "save": os.path.join(files, "%d.lz4" % cid), "noflush": False, "hist": -1})
     wrecs, faults = fl.shard_run(b, "frame-write", wcases, d, "w")
     if faults:
         raise vlib.MachineryFault("frame-write failed: %s" % faults[0]["stderr"][-800:])
@@ -125,7 +152,11 @@ def run(ctx):
     rcases = []
     for c in wcases:
         B = fl.block_of(c["opts"])
-        for cfg in reader_cfgs(rnd, B, 2 if q else 4, c["input"]["len"]):
+        cfgs = reader_cfgs(rnd, B, 2 if q else 4, c["input"]["len"])
+        if c["hist"] == -1:
+            cfgs = [{"conc": 1, "mode": "read", "bufs": [4096], "extra": 2}, {"conc": 1, "mode": "writeto", "extra": 2},
+                    {"conc": 1, "mode": "read", "bufs": [7], "extra": 2}, {"conc": 4, "mode": "read", "bufs": [B], "extra": 2}]
+        for cfg in cfgs:
             rid = len(rcases) + 1
             rcases.append({"id": rid, "chunks": [{"file": c["save"]}], "cfg": cfg, "content": c["input"], "w": c["id"]})
     rrecs, faults = fl.shard_run(b, "frame-read", rcases, d, "r", extra=("--watchdog", "120s"))
